@@ -431,3 +431,12 @@ func (m *mirror) preReady() int {
 func ctxWithCancel() (context.Context, context.CancelFunc) {
 	return context.WithCancel(context.Background())
 }
+
+// chanLock is a mutex built on a channel: inside a synctest bubble a goroutine
+// blocked on it is DURABLY blocked, so virtual time keeps advancing (a
+// sync.Mutex held across an injected virtual sleep would freeze the bubble).
+type chanLock chan struct{}
+
+func newChanLock() chanLock { return make(chanLock, 1) }
+func (l chanLock) Lock()    { l <- struct{}{} }
+func (l chanLock) Unlock()  { <-l }
